@@ -9,13 +9,14 @@ BASE = ("Trusted: TLC and the TLA+ semantics of the specification; the hand-writ
 T = "TLA+ spec + TLC exhaustive model checking; every emitted transition/case replayed on the real code (model-based conformance)"
 TT = "TLA+ spec + TLC exhaustive model checking of the state machine; all bounded paths of the emitted state graph replayed on the real code (spec->code) and TLC trace validation of recorded random-driver traces (code->spec)"
 TP = "TLA+ spec of the reference semantics checked by TLC on every case of the bounded input universe (each case an initial state, laws as invariants); every emitted case replayed on the real functions (model-based conformance)"
-TECH = {"C15": TT, "C34": TT, "C08": TP, "C09": TP}
+TECH = {"C15": TT, "C34": TT, "C08": TP, "C09": TP, "C06": TP}
 CHECKS = {
  "C01": ("TreeLaws.tla: TLC checks Dec7951(Enc7951(t)) on every well-formed tree of four slices; each tree is rendered with Marshal7951/EmitJSON (with and without module prefixes), unmarshalled into an empty root, compared through the independent projector, and re-rendered byte-for-byte, for compressed/uncompressed and simple/wrapper-union packages.", "8/C01"),
  "C02": ("TreeLaws.tla: notifications model (one plain notification, one atomic per ordered list) and its application checked by TLC on every tree; each tree goes through the real TogNMINotifications (root and prefixed sub-struct) and UnmarshalNotifications into an empty root.", "8/C02"),
  "C03": ("PairLaws.tla: operational Diff / DiffWithAtomic and their application vs the declarative soundness, completeness, minimality, self-diff and IgnoreAdditions laws on every ordered pair of trees of three slices; each pair replayed on the real Diff/DiffWithAtomic, the notifications applied to a rebuilt copy of a and every update/delete checked for minimality by applying it alone.", "8/C03"),
  "C04": ("HeapModel.tla shows disjoint mutable cells are equivalent to mutation-invisibility; the real DeepCopy (every tree) and MergeStructs (every pair) results are walked for shared addresses of all mutable cell kinds and then every cell of one side is mutated in place while the other side is re-projected.", "8/C04"),
  "C05": ("PairLaws.tla: per-field-kind operational merge vs declarative compatibility, union, commutativity and overwrite laws on every ordered pair of trees; each pair replayed on MergeStructs with and without MergeOverwriteExistingFields: success flag, projected result, inputs unchanged.", "8/C05"),
+ "C06": ("Restrict.tla: range/length restrictions as unions of parts over an ordered symbolic domain, and regular expressions as ASTs whose bounded languages TLC computes under whole-string semantics (XSD reading and anchor reading of a leading ^ / trailing $; only strings on which both agree are decisive); every (parts, value) case is concretised for every integer width, decimal64, string length (characters) and binary length (bytes), every (pattern, string) case runs through ValidateStringRestrictions (single pattern, two patterns, posix-pattern precedence), including the never-fails-every-value clause.", "8/C06"),
  "C08": ("PathStr.tla: the documented path-string grammar as a reference encoder and a character-by-character reference decoder; TLC checks RefDec(RefEnc(p)) = p on every path of the bounded universe (values over the 10-character escape alphabet up to length 3/4, two-element and two-key combinations) and emits the cases; the real PathToString, StringToStructuredPath, PathToStrings and StringToStringSlicePath are run on every case: round trip, injectivity over the whole enumeration, and the legacy string-slice law.", "8/C08"),
  "C09": ("PathRel.tla: a path denotes the set of concrete paths it matches (missing or '*' key = wildcard, subtree included); TLC checks the ComparePaths-shaped compositional algorithm against the set-relation definition on every ordered pair of the bounded universe and emits the expected relation plus the helper-function answers; the real ComparePaths (8 evaluations per pair, swap symmetry), PathMatchesQuery, PathMatchesPrefix, PathMatchesPathElemPrefix, TrimGNMIPathElemPrefix, FindPathElemPrefix and JoinPaths are compared on every pair.", "8/C09"),
  "C10": ("TreeMachine.tla: TLC checks the operational SetNode model against the declarative get/frame property on every state and transition of four slices; every emitted set transition is replayed on the real SetNode+GetNode for every corpus variant (typed and JSON payloads), plus random walks through the state graph on one live tree.", "8/C10"),
